@@ -790,7 +790,20 @@ def rule_R11(res, prog):
             n += 1
             # (a) no other alert is replaced by the expiry
             worst = None
-            for (obid, oln, ov, ox) in others:
+
+            def cfg_reach0(src):
+                seen_, st = set(), [src]
+                while st:
+                    q = st.pop()
+                    for sc in fn.bmap[q]["succ"]:
+                        if sc.get("b") is not None and sc["b"] not in seen_:
+                            seen_.add(sc["b"])
+                            st.append(sc["b"])
+                return seen_
+            from_exp0 = cfg_reach0(ebid)
+            # the alerts chosen by the verdict scan itself (same loop as the expiry store); an alert stored before the scan
+            # starts is kept by the loop's first test, which the search cannot follow across the validator call
+            for (obid, oln, ov, ox) in [o for o in others if o[0] in from_exp0 and ebid in cfg_reach0(o[0])]:
                 # start after the store: successors of the store's block with ssl->err = ov
                 for sc in fn.bmap[obid]["succ"]:
                     if sc.get("b") is None:
